@@ -163,8 +163,12 @@ def correspond(prop, tier, seed, backends):
                     ops.append(("corpus", l))
         ops += prop.gen(w, rng, tier)
         res = pl.run_ops(be, [l for _, l in ops], f"{prop.ID}_{tier}")
+        judge = getattr(prop, "judge", None)
         for (lab, _), (line, io, mo, v) in zip(ops, res):
-            cases.append(Case(be, lab, line, io, mo, v))
+            c = Case(be, lab, line, io, mo, v)
+            if judge:
+                c.verdict = judge(c)
+            cases.append(c)
             hist[lab] = hist.get(lab, 0) + 1
     return cases, hist
 
